@@ -36,6 +36,7 @@ ProdTol  == 1     \* max |USV(flipped) - USV(unflipped)| <= 1e-8
 Methods   == {"truncated_svd", "symeig_svd", "randomized_svd", "callable"}
 Overs     == {0, 1, 5, 10}                 \* n_oversamples handed to randomized_svd (5 = the default)
 NIters    == {0, 1, 2}                     \* n_iter (power iterations) handed to randomized_svd (2 = the default)
+Pow2s     == {-650, -530, -400, 0, 400, 650}  \* the matrix handed over is A * 2^pow2 (exact scaling; S is divided by it again)
 Masks     == {"off", "ones"}               \* mask=None | an all-ones mask ("nothing is missing": same contract)
 Flips     == {"off", "U", "V"}             \* flip_sign=False | u_based_flip_sign=True | False
 NonNegs   == {"off", "nndsvda", "nndsvd"}  \* non_negative = False | True (documented default type) | "nndsvd"
@@ -56,13 +57,21 @@ ValidOpt(m, n, r) ==
     /\ (r.niter # 2 => r.over \in {0, 5})
     \* the mask is only read when n_eigenvecs is given (docstring); then it triggers the imputation loop
     /\ (r.mask = "ones" => r.k # 0 /\ r.flip = "off" /\ r.nonneg = "off" /\ r.over = 5 /\ r.niter = 2)
+    \* magnitude regime: the contract is scale invariant.  2^650 ~ 4.7e195 and 2^-530 ~ 2.8e-160 are representable,
+    \* their squares are not (overflow / denormal): a genuine SVD never needs them.  symeig_svd is DEFINED through
+    \* the Gram matrix A^T A and is obliged only while that is representable (|pow2| <= 400).  Plain calls only.
+    /\ r.pow2 \in Pow2s
+    /\ (r.pow2 # 0 => /\ r.flip = "off" /\ r.nonneg = "off" /\ r.mask = "off" /\ r.over = 5 /\ r.niter = 2 /\ r.k \in {0, 1, 2}
+                      /\ (r.method = "symeig_svd" => r.pow2 >= -400 /\ r.pow2 <= 400))
 
 AllOpts(m, n) ==
-    {r \in [method : Methods, over : Overs, niter : NIters, mask : Masks, k : Ks(m, n), flip : Flips, nonneg : NonNegs, via : Vias] :
-        ValidOpt(m, n, r)}
+    {r \in [method : Methods, over : Overs, niter : NIters, mask : Masks, k : Ks(m, n), flip : Flips, nonneg : NonNegs, via : Vias,
+            pow2 : {0}] : ValidOpt(m, n, r)}
+    \cup {r \in [method : Methods, over : {5}, niter : {2}, mask : {"off"}, k : {0, 1, 2}, flip : {"off"}, nonneg : {"off"}, via : Vias,
+                  pow2 : Pow2s \ {0}] : ValidOpt(m, n, r)}
 
 OptKey(r) == [method |-> r.method, over |-> r.over, niter |-> r.niter, mask |-> r.mask, k |-> r.k, flip |-> r.flip,
-              nonneg |-> r.nonneg, via |-> r.via]
+              nonneg |-> r.nonneg, via |-> r.via, pow2 |-> r.pow2]
 
 \* ------------------------------------------------------------------ clamp and documented shapes
 \* svd_checks: "n_eigenvecs=None -> max_dim;  n_eigenvecs > max_dim -> max_dim (warning)".
@@ -249,7 +258,7 @@ VARIABLE cfg
 NoCfg == [op |-> "none"]
 Init == \/ cfg \in {[op |-> "shape", m |-> m, n |-> n] : m \in 1..MaxDim, n \in 1..MaxDim}
         \/ cfg = [op |-> "options", methods |-> Methods, overs |-> Overs, flips |-> Flips, nonnegs |-> NonNegs,
-                 niters |-> NIters, masks |-> Masks]
+                 niters |-> NIters, masks |-> Masks, pow2s |-> Pow2s]
 \* three levels (shape -> placement -> matrix) so that TLC's workers share the enumeration
 Next == \/ /\ cfg.op = "shape"
            /\ cfg' \in {[op |-> "place", m |-> cfg.m, n |-> cfg.n, rows |-> p.rows, cols |-> p.cols] :
